@@ -294,7 +294,8 @@ PROPS['C09'] = dict(
                                 dict(name='mercobserve', spec_index=1, n_quick=800, n_thorough=20000)], rule=MERC_RULE,
     explanation="Theorems C09_* prove: with a previous report the start is exactly one past its end without wrap (B2) and not after the new "
                 "end; over any threaded history the windows of consecutive emitted reports are adjacent and disjoint; declining carries no "
-                "fields. The bootstrap start (one past the greatest value with f+1 votes, or the timestamp when negative; overflow repaired, "
+                "fields, and a round whose consensus end lies below previous end + 1 with nothing else wrong answers (false, nil), never an "
+                "error (C09_v234_must_decline; the evaluator judges the same condition on the implementation's own answer, v1 included). The bootstrap start (one past the greatest value with f+1 votes, or the timestamp when negative; overflow repaired, "
                 "B8) is checked on the implementation by the predicate; the model agrees with the plugins on every generated round.",
     assumptions=["codec_consistent: the codec reads back the timestamp / block number a report was built with",
                  "observation timestamps are uint32 (>= 0)"],
